@@ -96,6 +96,12 @@ def instances(tier: str) -> list[dict]:
             for O in itertools.combinations(nodes, k):
                 for s in cands[: (1 if tier == "quick" else 2)]:
                     out.append({"part": "batch-objects", "tree": tree, "naming": naming, "sk": "named", "S": [s], "ok": "named" if k == 2 else "sub", "O": list(O)})
+    # object / subject batches holding a module together with one of its own sub modules (every tier)
+    nested = concrete("T4n", "neutral")  # p; p.a (p.a.x); p.b
+    pa, pax, pb = nested[1], nested[2], nested[3]
+    for kinds in (("named", "named"), ("named", "sub"), ("sub", "named")):
+        out.append({"part": "batch-objects", "tree": "T4n", "naming": "neutral", "sk": kinds[0], "S": [pb if kinds[0] == "named" else nested[0]], "ok": kinds[1], "O": [pa, pax] if kinds[1] == "named" else [nested[0], pa]})
+        out.append({"part": "batch-subjects", "tree": "T4n", "naming": "neutral", "sk": kinds[1], "S": [pa, pax] if kinds[1] == "named" else [nested[0], pa], "ok": "named", "O": [pb]})
     # the same regex rule on a SEQUENCE of architectures (each discarded before the next is built)
     for rx in (r"p\.(a|b)$", r"p\.[ab]", r".*\.c"):
         for verb in ("should_not", "should_only"):
